@@ -3,7 +3,7 @@
 Oracles: (a) truth value == qast.ref (independent evaluator written from the docs / the statement);
 (b) connective laws against the implementation's *own* operand results: (~q)(p) == not q(p),
 (q&r)(p) == q(p) and r(p), (q|r)(p) == q(p) or r(p); (c) totality: evaluation never raises.
-Exhaustive: every leaf of the vocabulary on every point of the 11 664-point universe; every depth-2
+Exhaustive: every leaf of the vocabulary on every point of the 19 440-point universe; every depth-2
 expression (~l, l&l', l|l') over the vocabulary on every point of U that varies the slots the operands
 address; depth-3 expressions over a 12-leaf core (all of them in the thorough tier, a slice in quick).
 Generated: Hypothesis expressions up to depth 6 on random pool points.
@@ -20,7 +20,7 @@ LEVEL = "exploration"
 RULE = (
     "exhaustive finite core: (1) every vocabulary leaf (every query type x every operator x rhs None/empty/zero/bound-equal, exists, both regex "
     "methods with flags, test with/without args, map, noop, two-key paths, function-first paths) on every point of the universe "
-    "U = tags{a,b}x{missing,None,'','x','X','xy'} x fields{a,f}x{missing,None,0,-1,1,2.5} x 3 measurements x 3 times (11 664 points); "
+    "U = tags{a,b}x{missing,None,'','x','X','xy'} x fields{a,f}x{missing,None,0,-1,1,2.5} x 3 measurements x 5 times (19 440 points; two of the five times lie in the year 2600, one microsecond apart); "
     "(2) every ~l, l&l', l|l' over the vocabulary on all points of U varying the slots the operands read; (3) depth-3 expressions over a 12-leaf core; "
     "plus Hypothesis expressions up to depth 6 on pool points. Non-trivial = (expression, point) where an addressed attribute is missing, None, "
     "empty, zero or equal to the comparison bound; exhaustive parts are distinct by construction, generated cases by digest of (expression, point)."
@@ -36,7 +36,10 @@ CORE12 = None
 def tree(q):
     """Build q bottom-up so that a compound is composed from the very operand objects we also evaluate."""
     if q[0] == "leaf":
-        return (qast.build(q), ())
+        try:
+            return (qast.build(q), ())
+        except Exception as e:
+            raise Violation("build", {"q": q, "p": None}, "building the well-formed query %s through the DSL raised %r" % (qast.show(q), e))
     kids = tuple(tree(s) for s in q[1:])
     if q[0] == "not":
         b = ~kids[0][0]
@@ -228,6 +231,9 @@ def run_shard(spec, ctx):
 
 
 def replay(sub, case, ctx):
+    if case.get("p") is None:
+        tree(case["q"])
+        return
     check_qp(case["q"], case["p"])
 
 
